@@ -61,15 +61,22 @@ deriving Repr
 
 /-! ### tiny association maps -/
 
-def lookup {α} (m : List (Nat × α)) (k : Nat) : Option α := (m.find? (·.1 == k)).map (·.2)
-def insert {α} (m : List (Nat × α)) (k : Nat) (v : α) : List (Nat × α) :=
-  if m.any (·.1 == k) then m.map (fun e => if e.1 == k then (k, v) else e) else m ++ [(k, v)]
+def lookup {α} : List (Nat × α) → Nat → Option α
+  | [], _ => none
+  | e :: t, k => if e.1 == k then some e.2 else lookup t k
+/-- replace in place or append -/
+def insert {α} : List (Nat × α) → Nat → α → List (Nat × α)
+  | [], k, v => [(k, v)]
+  | e :: t, k, v => if e.1 == k then (k, v) :: t else e :: insert t k v
 def erase {α} (m : List (Nat × α)) (k : Nat) : List (Nat × α) := m.filter (·.1 != k)
 
-def ilookup {α} (m : List (Ident × α)) (k : Ident) : Option α := (m.find? (·.1 == k)).map (·.2)
+def ilookup {α} : List (Ident × α) → Ident → Option α
+  | [], _ => none
+  | e :: t, k => if e.1 == k then some e.2 else ilookup t k
 /-- `upsert`: replace in place or append -/
-def iinsert {α} (m : List (Ident × α)) (k : Ident) (v : α) : List (Ident × α) :=
-  if m.any (·.1 == k) then m.map (fun e => if e.1 == k then (k, v) else e) else m ++ [(k, v)]
+def iinsert {α} : List (Ident × α) → Ident → α → List (Ident × α)
+  | [], k, v => [(k, v)]
+  | e :: t, k, v => if e.1 == k then (k, v) :: t else e :: iinsert t k v
 def ierase {α} (m : List (Ident × α)) (k : Ident) : List (Ident × α) := m.filter (·.1 != k)
 
 abbrev Pipes := List (Nat × Pipe)
@@ -292,7 +299,7 @@ def propLookup (ps : Props) (k : Bytes) : Option Bytes :=
 
 /-- `ready_exchange` on the peer's READY: the identity under which it is admitted, or the error.
 `fresh` is the next auto-assigned identity. -/
-def admit (localT : SockType) (props : Props) (fresh : Nat) : Except Err (Ident × Nat) :=
+def admitPeer (localT : SockType) (props : Props) (fresh : Nat) : Except Err (Ident × Nat) :=
   match propLookup props kSocketType with
   | none => .error .other
   | some tn =>
@@ -406,7 +413,7 @@ def attachPoll : Nat → World → Nat → Nat → AStage → Rd → Wr → Worl
       | .eof => failWith w .other
       | .err e => failWith w e
       | .item (.command props) =>
-        match admit s.typ props w.fresh with
+        match admitPeer s.typ props w.fresh with
         | .error e => failWith w e
         | .ok (ident, fresh') =>
           let w := { w with fresh := fresh' }
